@@ -2,7 +2,7 @@
    grammar and Horner value of Proofs/ParseSpec.v. *)
 From Bnum Require Import Base Prim.
 From Bnum.Model Require Import Digit Core Shift AddSub Bits Parse.
-From Bnum.Proofs Require Import ParseSpec ParseLoops ParseArith ParsePow2 ParseGen ParseDeps.
+From Bnum.Proofs Require Import ParseSpec ParseLoops ParseArith ParsePow2 ParseGen ParseDeps ParseSlice.
 
 (* ---------- from_buf_radix_internal, both branches ---------- *)
 Lemma mod8_mod w lg : w mod 8 = 0 -> (lg = 1 \/ lg = 2 \/ lg = 4) -> w mod lg = 0.
@@ -616,4 +616,41 @@ Proof.
   - assert (E : U_from_radix_le dbg w n ds r = PPanic).
     { unfold U_from_radix_le, radix_in_range. destruct (Z.leb_spec 2 r); [lia|]. reflexivity. }
     rewrite E. split; [lia | reflexivity].
+Qed.
+
+(* ---------- from_radix_be / from_radix_le for the whole range 2..256 ---------- *)
+Lemma slice_256 w n ds : 0 < w -> w mod 8 = 0 -> bytes ds ->
+  from_le_slice w n (rev ds) = slice_value w n 256 ds.
+Proof.
+  intros Hw H8 Hb. rewrite from_le_slice_spec by (auto; apply Forall_rev'; exact Hb).
+  rewrite horner256. unfold slice_value. rewrite (bytes_below_256 ds Hb). reflexivity.
+Qed.
+
+Theorem U_from_radix_be_full (Hadd : U_overflowing_add_spec) dbg w n ds r :
+  0 < w -> w mod 8 = 0 -> (0 < n)%nat -> 2 <= r <= 256 -> bytes ds ->
+  U_from_radix_be dbg w n ds r = POk (slice_value w n r ds).
+Proof.
+  intros Hw H8 Hn Hr Hb. destruct (Z.eq_dec r 256) as [->|Hne].
+  - unfold U_from_radix_be. cbn [radix_in_range]. replace (radix_in_range 256 256) with true by reflexivity.
+    destruct ds as [|d ds].
+    + unfold slice_value. cbn [digits_below forallb andb]. rewrite horner_nil.
+      pose proof (Mod_pos w n ltac:(lia)). destruct (Z.ltb_spec 0 (Mod w n)); [|lia].
+      rewrite digits_of_zero by lia. reflexivity.
+    + replace (256 =? 256) with true by reflexivity. unfold from_be_slice. f_equal. apply slice_256; auto.
+  - apply U_from_radix_be_spec; auto. lia.
+Qed.
+
+Theorem U_from_radix_le_full (Hadd : U_overflowing_add_spec) dbg w n ds r :
+  0 < w -> w mod 8 = 0 -> (0 < n)%nat -> 2 <= r <= 256 -> bytes ds ->
+  U_from_radix_le dbg w n ds r = POk (slice_value w n r (rev ds)).
+Proof.
+  intros Hw H8 Hn Hr Hb. destruct (Z.eq_dec r 256) as [->|Hne].
+  - unfold U_from_radix_le. replace (radix_in_range 256 256) with true by reflexivity.
+    destruct ds as [|d ds].
+    + unfold slice_value. cbn [rev digits_below forallb andb]. rewrite horner_nil.
+      pose proof (Mod_pos w n ltac:(lia)). destruct (Z.ltb_spec 0 (Mod w n)); [|lia].
+      rewrite digits_of_zero by lia. reflexivity.
+    + replace (256 =? 256) with true by reflexivity. f_equal.
+      rewrite <- (rev_involutive (d :: ds)) at 1. apply slice_256; auto. apply Forall_rev'. exact Hb.
+  - apply U_from_radix_le_spec; auto. lia.
 Qed.
